@@ -27,7 +27,9 @@ def run(c):
               "(decimal, hex, legacy octal 0644, 0o, 0b, underscores; raw/concat/named/parenthesised/arith/float), nested calls of earlier "
               "helpers, rules between the definitions, arguments spelled as literals, parenthesised, or as named constants -- preferably ones "
               "spelled like a parameter of the called helper --, package-level variables, group-level constants that shadow package-level ones, "
-              "a package-level function named like an earlier group's helper, helpers called several times with other arguments; const cases: one spelled argument vs its plain literal; distinct "
+              "a package-level function named like an earlier group's helper, helpers called several times with other arguments, blank parameters in "
+              "every position (one field per parameter or grouped), helper bodies that name package-level / group-level / shadowing group-level "
+              "constants in every string and int argument position; a fixed catalogue of 35 helper shapes with hand-written twins; const cases: one spelled argument vs its plain literal; distinct "
               "by source text; non-trivial when (a) loads (equality is really compared) or the spelling is not a plain literal")
     c.trusted += [
         "go2coq macroshape (pinned statement lists, path table of convertFilterExprImpl, scan of the writes of conv.groupFuncs and of the reset position)",
